@@ -24,6 +24,7 @@ import shutil
 import subprocess
 import sys
 import tempfile
+import time
 
 import lib
 
@@ -45,15 +46,19 @@ RULE = ('C01-grammar programs of the common subset rendered from random syntax t
         'failures, errors incl. invalid, catch_first_error) x entry points evaluate/solve_t/solve x t in both spellings, feasible and not. A run case '
         'is non-trivial when at least two evaluation passes ran, or an exception surfaced, or it is an evaluate call on a program with at least one '
         'arithmetic node; a text case when at least one term was rewritten. Distinct by hash of the whole case.')
-TRUSTED = ['harness/fortran_ctypes.py (gfortran -O2 -shared -fPIC + ctypes stand-in for the f2py module; passes arguments verbatim)',
+TRUSTED = ['harness/fortran_ctypes.py (gfortran -O2 -ffp-contract=off -shared -fPIC + ctypes stand-in for the f2py module; passes arguments verbatim)',
            'gfortran 12 (parsing, constant folding, code generation) and glibc libm: observed through K only — the claim is PARTIAL',
            'numpy scalar arithmetic and CPython evaluation of the generated _evaluate (observed through K only)',
            'exp/log/pow oracle tables recorded by the harness (numpy for the Python model, glibc via ctypes for the Fortran model)',
            'OCaml extraction of FText.v / FParse.v / FWrap.v (ExtrOcamlBasic + ExtrOcamlString) and the ~100-line driver written by this module '
            '(incl. a reader of prefix-notation trees: the same tree is sent to the driver and, as a Coq term, to the float part of K)']
 ASSUMPTIONS = ['all model variables are float64 series; integers passed to the engine fit a C int',
-               'integer literals below 2**31, decimal literals without exponent part (the fsic parser rejects 1e-3), no literal-only '
-               'subexpression that overflows or divides by zero',
+               'decimal literals without exponent part (the fsic parser rejects 1e-3); no literal-only subexpression whose constant is undefined in '
+               'either language (zero divisor, log of a non-positive constant, under integer OR real semantics: 7 / (2 - 2), 3 / (1 / 2), log(0.1 - 0.3)): '
+               'enforced by the generator (literal_hazards) and, defensively, not judged by the oracle; constants beyond INTEGER(4) / REAL(4) '
+               '(3000000000, 10 ** 10, a decimal above 3.4e38) are generated on purpose: kept finding compile|literal-out-of-range (oracle only: '
+               'the Coq model of the Fortran side has no range check, so K compares only the Python side there)',
+               'the sign of a zero is not compared in programs with MAX / MIN or with an integer literal 0 (`-0 * X`: an integer has no -0)',
                'textwrap.wrap is modelled (FWrap.v, CPython 3.12 defaults) for texts whose only whitespace is the blank and in which the '
                'hyphen rule of the chunk splitter never applies (generated Fortran code); K compares equation_block / array_def_block — rewrite, '
                'wrap, continuation join, indent — with the text of the generated module for every equation and index array',
@@ -72,17 +77,36 @@ SOURCES = ['fortran.py', 'parser.py', 'core/models.py', 'core/containers.py', 'c
 CASE_TIMEOUT = 60
 
 IN_WORKER = os.path.basename(sys.argv[0] if sys.argv else '') == 'worker.py'
-SO_ROOT = os.path.join(tempfile.gettempdir(), 'verif_c07_so')
-SO_DIR = os.path.join(SO_ROOT, str(os.getppid() if IN_WORKER else os.getpid()))
+
+
+def _so_root():
+    """Where the compiled modules go: the first of $VERIF_SO_DIR, the temp dir, /dev/shm, /var/tmp that is writable and NOT mounted noexec
+    (ctypes must be able to map the .so).  The same answer in the check process and in its workers (a function of the environment only)."""
+    cands = [os.environ.get('VERIF_SO_DIR'), tempfile.gettempdir(), '/dev/shm', '/var/tmp']
+    for c in cands:
+        if not c:
+            continue
+        try:
+            if os.path.isdir(c) and os.access(c, os.W_OK | os.X_OK) and not (os.statvfs(c).f_flag & getattr(os, 'ST_NOEXEC', 8)):
+                return os.path.join(c, 'verif_c07_so')
+        except OSError:
+            pass
+    return None
+
+
+SO_ROOT = _so_root()
+SO_DIR = os.path.join(SO_ROOT, str(os.getppid() if IN_WORKER else os.getpid())) if SO_ROOT else None
 
 
 def _cleanup():
-    if not IN_WORKER:
+    if not IN_WORKER and SO_DIR:
         shutil.rmtree(SO_DIR, ignore_errors=True)
         try:
-            for d in os.listdir(SO_ROOT):                      # directories left behind by killed runs
-                if d.isdigit() and not os.path.exists('/proc/%s' % d):
-                    shutil.rmtree(os.path.join(SO_ROOT, d), ignore_errors=True)
+            now = time.time()
+            for d in os.listdir(SO_ROOT):                      # directories left behind by killed runs: no such process HERE, and old enough
+                q = os.path.join(SO_ROOT, d)                   # that a run in another PID namespace sharing the directory cannot still be using it
+                if d.isdigit() and not os.path.exists('/proc/%s' % d) and now - os.path.getmtime(q) > 6 * 3600:
+                    shutil.rmtree(q, ignore_errors=True)
             os.rmdir(SO_ROOT)
         except OSError:
             pass
@@ -277,6 +301,146 @@ def classify_program(eqs):
     return cls
 
 
+class _Hazard(Exception):
+    """'undef': the constant is undefined in one of the two languages (zero divisor, log of a non-positive number, negative base to a real
+    power, non-finite double) — outside the common subset; 'range': fine as a Python number but beyond INTEGER(4) / REAL(4) in the Fortran
+    text (3000000000, 10 ** 10, exp(2.75 * 49), a decimal above 3.4e38) — the kept literal-kind family."""
+
+
+def _lit_only(n):
+    return not any(c[0] in ('v', 'p', 'e') for c in walk(n))
+
+
+def _fold_f(n):
+    """Value gfortran's constant folding gives a literal-only tree: ('I', int) or ('4', numpy.float32); raises _Hazard."""
+    import numpy as np
+    k = n[0]
+    if k == 'i':
+        if not -2 ** 31 < n[1] < 2 ** 31:
+            raise _Hazard('range')
+        return ('I', int(n[1]))
+    if k == 'd':
+        with np.errstate(all='ignore'):
+            v = np.float32(n[1])
+        if not np.isfinite(v):
+            raise _Hazard('range')
+        return ('4', v)
+    if k == 'par':
+        return _fold_f(n[1])
+    if k == 'neg':
+        kd, v = _fold_f(n[1])
+        return (kd, -v)
+    with np.errstate(all='ignore'):
+        if k == 'f':
+            kd, v = _fold_f(n[2])
+            if n[1] == 'abs':
+                return (kd, abs(v))
+            if kd == 'I':
+                raise _Hazard('kind')                    # exp / log of an integer: rejected by kind (its own finding class)
+            if n[1] == 'log':
+                if not v > 0:
+                    raise _Hazard('undef')
+                r = np.log(v)
+            else:
+                r = np.exp(v)
+            if not np.isfinite(r):
+                raise _Hazard('range')
+            return ('4', np.float32(r))
+        (ka, a), (kb, b) = _fold_f(n[-2]), _fold_f(n[-1])
+        if k == 'm':
+            if (ka == 'I') != (kb == 'I'):
+                raise _Hazard('kind')
+            return (ka, max(a, b) if n[1] == 'max' else min(a, b))
+        op = n[1]
+        if ka == 'I' and kb == 'I':
+            if op == '/':
+                if b == 0:
+                    raise _Hazard('undef')
+                r = abs(a) // abs(b) * (1 if (a < 0) == (b < 0) else -1)
+            elif op == '^':
+                if b < 0:
+                    if a == 0:
+                        raise _Hazard('undef')
+                    r = (1 if a == 1 else ((-1) ** (-b) if a == -1 else 0))
+                else:
+                    if b > 200:
+                        raise _Hazard('range')
+                    r = a ** b
+            else:
+                r = {'+': a + b, '-': a - b, '*': a * b}[op]
+            if not -2 ** 31 < r < 2 ** 31:
+                raise _Hazard('range')
+            return ('I', r)
+        x, y = np.float32(a), np.float32(b)
+        if op == '/':
+            if y == 0:
+                raise _Hazard('undef')
+            r = x / y
+        elif op == '^':
+            if kb == 'I':
+                if x == 0 and b < 0:
+                    raise _Hazard('undef')
+                r = np.float32(float(x) ** int(b)) if abs(int(b)) < 4096 else np.float32(np.inf)
+            else:
+                if x < 0 or (x == 0 and y <= 0):
+                    raise _Hazard('undef')
+                r = np.float32(np.power(x, y))
+        else:
+            r = {'+': x + y, '-': x - y, '*': x * y}[op]
+        if not np.isfinite(r):
+            raise _Hazard('range')
+        return ('4', np.float32(r))
+
+
+def _fold_p(n):
+    """Value Python gives a literal-only tree (ints stay ints, / is true division); raises _Hazard('undef')."""
+    import math
+    k = n[0]
+    try:
+        if k == 'i':
+            return int(n[1])
+        if k == 'd':
+            return float(n[1])
+        if k == 'par':
+            return _fold_p(n[1])
+        if k == 'neg':
+            return -_fold_p(n[1])
+        if k == 'f':
+            v = _fold_p(n[2])
+            r = abs(v) if n[1] == 'abs' else (math.log(v) if n[1] == 'log' else math.exp(v))
+        elif k == 'm':
+            a, b = _fold_p(n[2]), _fold_p(n[3])
+            r = max(a, b) if n[1] == 'max' else min(a, b)
+        else:
+            a, b = _fold_p(n[2]), _fold_p(n[3])
+            op = n[1]
+            if op == '^' and isinstance(b, int) and abs(b) > 4096:
+                raise _Hazard('undef')
+            r = {'+': lambda: a + b, '-': lambda: a - b, '*': lambda: a * b, '/': lambda: a / b, '^': lambda: a ** b}[op]()
+        if isinstance(r, complex) or (isinstance(r, float) and (r != r or abs(r) == float('inf'))):
+            raise _Hazard('undef')
+        return r
+    except (ZeroDivisionError, ValueError, OverflowError):
+        raise _Hazard('undef')
+
+
+def literal_hazards(eqs):
+    """-> subset of {'undef', 'range'}: what the literal-only subtrees of the program (every one, not only the maximal ones) run into when they
+    are evaluated as constants, by gfortran's kinds (INTEGER(4) / REAL(4)) and by Python's numbers."""
+    found = set()
+    for _lhs, rhs in eqs:
+        for n in walk(rhs):
+            if n[0] in ('v', 'p', 'e') or not _lit_only(n):
+                continue
+            for fold in (_fold_f, _fold_p):
+                try:
+                    fold(n)
+                except _Hazard as h:
+                    if h.args[0] != 'kind':
+                        found.add(h.args[0])
+    return found
+
+
 def has_node(eqs, pred):
     return any(pred(n) for _l, r in eqs for n in walk(r))
 
@@ -304,7 +468,7 @@ def gen_expr(rng, env, depth, lit):
         return ['b', op, gen_expr(rng, env, depth - 1, lit), gen_expr(rng, env, depth - 1, lit)]
     if r < 0.70:
         a = gen_expr(rng, env, depth - 1, lit)
-        return ['neg', a] if a[0] != 'neg' else a
+        return ['neg', a] if a[0] != 'neg' and a != ['i', 0] else a            # an integer has no -0: `-0 * X` is +0.0 in Python, -(0*X) = -0.0 in Fortran
     if r < 0.78:
         return ['par', gen_expr(rng, env, depth - 1, lit)]
     if r < 0.86:
@@ -392,6 +556,14 @@ def gen_program(rng, family):
                 lit = {'int': 0.25, 'ints': [1, 2, 3, 7], 'dec': 0.2, 'decs': ['0.1', '0.3', '1.1', '0.5', '2.75', '0.7']}
                 env['funs'] = ['exp', 'log', 'abs']
             rhs = gen_expr(rng, env, rng.randint(1, 4), lit)
+            for _try in range(200):
+                # ASSUMPTIONS: no literal-only subexpression whose constant is undefined (zero divisor, log of a non-positive number) or out of
+                # the range of INTEGER(4) / REAL(4): gfortran rejects those while folding (`log(-1.1) + Z`, `7 / (2 - 2)`, `3 / (1 / 2)`)
+                if not literal_hazards([[y, rhs]]):
+                    break
+                rhs = gen_expr(rng, env, rng.randint(1, 4), lit)
+            else:
+                rhs = copy.deepcopy(['v', rng.choice(exo), 0])
             if family == 'powi':
                 base = gen_expr(rng, env, 1, {})
                 rhs = ['b', rng.choice('+*-'), ['b', '^', base if base[0] in ('v', 'p', 'e') else ['par', base], ['i', rng.choice([2, 2, 3, 4, 5, 7])] if rng.random() < 0.8 else ['neg', ['i', rng.choice([1, 2, 3])]]], rhs]
@@ -573,6 +745,10 @@ def corpus(rng):
     P.append(prog(['Y', ['b', '+', ['v', 'C', 0], ['v', 'G', 0]]], ['C', ['b', '*', ['p', 'c1'], ['v', 'Y', 0]]]))  # two check variables
     P.append(prog(['Y', ['b', '*', ['b', '/', ['i', 1], ['i', 2]], ['v', 'X', 0]]], family='bad'))
     P.append(prog(['Y', ['b', '*', ['d', '0.1'], ['v', 'X', 0]]], family='bad'))
+    # literals beyond INTEGER(4) / REAL(4): the Python class builds and evaluates, gfortran rejects the module (kept literal-kind family)
+    P.append(prog(['Y', ['b', '*', ['i', 3000000000], ['v', 'X', 0]]], family='range'))
+    P.append(prog(['Y', ['b', '*', ['b', '^', ['i', 10], ['i', 10]], ['v', 'X', 0]]], family='range'))
+    P.append(prog(['Y', ['b', '*', ['v', 'X', 0], ['d', '4' + '0' * 38 + '.0']]], family='range'))
     P.append(prog(['Y', ['m', 'min', ['i', 1], ['v', 'X', 0]]], family='bad'))
     P.append(prog(['Y', ['b', '*', ['f', 'exp', ['i', 2]], ['v', 'X', 0]]], family='bad'))
     P.append(prog(['Y', ['m', 'max', ['v', 'X', 0], ['v', 'Z', 0]]], ['W_t', ['m', 'min', ['v', 'X', 0], ['v', 'Z', 0]]], family='tree'))
@@ -625,7 +801,7 @@ def gen(rng, tier):
     fixed = corpus(rng)
     for pr in fixed:
         cases.append({'kind': 'text', 'prog': pr, 'script': script_of(pr)})
-        cases += gen_runs(rng, pr, (4 if pr['family'] == 'big' else 8 if pr['family'] in ('sign', 'wrap') else 24) if tier == 'quick' else (12 if pr['family'] == 'big' else 30 if pr['family'] in ('sign', 'wrap') else 60))
+        cases += gen_runs(rng, pr, (4 if pr['family'] == 'big' else 4 if pr['family'] == 'range' else 8 if pr['family'] in ('sign', 'wrap') else 24) if tier == 'quick' else (12 if pr['family'] == 'big' else 8 if pr['family'] == 'range' else 30 if pr['family'] in ('sign', 'wrap') else 60))
     # hand-made boundary runs on the first corpus program (one equation, one lag)
     p0 = fixed[0]
     for t, mx, mn, off, fl, er in [(1, 0, 0, 0, 'raise', 'raise'), (1, 0, 0, 0, 'ignore', 'raise'), (0, 3, 0, 0, 'raise', 'raise'), (-4, 3, 0, 0, 'raise', 'raise'),
@@ -803,8 +979,10 @@ def build(script, bargs=None):
             self.__dict__['_snaps'].append((int(t), self.values.copy()))
             super()._evaluate(t, **kw)
     b.Rec = Rec
+    if SO_DIR is None:
+        raise RuntimeError('C07 harness: no writable directory that allows execution for the compiled modules (temp dir mounted noexec?); set VERIF_SO_DIR')
     try:
-        eng = fc.Cache(SO_DIR).engine(b.text)
+        eng = fc.Cache(SO_DIR).engine(b.text)      # fc.ToolError (gfortran killed / no space / cannot load) propagates: a harness error, not a verdict
         b.compile = 'ok'
 
         class F(FT.FortranEngine, b.Py):
@@ -870,7 +1048,8 @@ def _call(m, span, case):
         else:
             a, b_ = case.get('start'), case.get('end')
             labels, idx, solved = m.solve(start=None if a is None else span[a], end=None if b_ is None else span[b_], **kw)
-            out = ['ret', [int(i) for i in idx], [bool(x) for x in solved]]
+            out = ['ret', [int(i) for i in idx], [bool(x) for x in solved], [repr(x) for x in labels],
+                   len(labels) == len(idx) and all(repr(x) == repr(span[i]) for x, i in zip(labels, idx))]     # the labels ARE span[idx]
     except Exception as e:
         c = e.__cause__
         out = ['raise', type(e).__name__, type(c).__name__ if c is not None else None]
@@ -1249,7 +1428,9 @@ def c_ccase(case, obs):
     por = '(mkOr %s %s %s)' % (tab1(t['pexp']), tab1(t['plog']), tab2(t['ppow']))
     for_ = '(mkOr %s %s %s)' % (tab1(t['fexp']), tab1(t['flog']), tab2(t['fpow']))
     py = c_obs(case['entry'], obs['py'])
-    if obs['f'] is None:
+    if obs['f'] is None and literal_hazards(case['prog']['eqs']):
+        f = 'None'                                   # ASSUMPTIONS: constants outside INTEGER(4) / REAL(4) or undefined are outside the model (oracle only)
+    elif obs['f'] is None:
         f = '(Some (%s, XNoCompile))' % st0
     elif f_side_compared(case, obs) and not r4_transcendental(case['prog']) and not minmax_unspecified(case, obs):
         f = c_obs(case['entry'], obs['f'])
@@ -1575,10 +1756,15 @@ def oracle(case, obs):
     py, f = obs['py'], obs['f']
     # ---- "the Fortran source produced by build_fortran_definition compiles"
     if f is None:
+        hz = literal_hazards(prog['eqs'])
+        if 'undef' in hz:
+            return fails                                   # a constant undefined in one language (7 / (2 - 2), log(-1.1)): outside the common subset, not judged
         if 'mixed-kind-minmax' in cls:
             bad('compile|mixed-kind-minmax', 'gfortran rejects min/max of an integer literal and a REAL(8) variable (%s)' % obs['compile'][:80])
         elif 'integer-argument-exp-log' in cls:
             bad('compile|integer-argument-exp-log', 'gfortran rejects exp/log of an integer literal (%s)' % obs['compile'][:80])
+        elif 'range' in hz:
+            bad('compile|literal-out-of-range', 'gfortran rejects a constant beyond INTEGER(4) / REAL(4) that Python computes as a number (%s)' % obs['compile'][:80])
         else:
             bad('compile|other', 'generated Fortran does not compile: %s ; script: %s' % (obs['compile'][:120], case['script'][:200]))
         return fails
@@ -1594,6 +1780,13 @@ def oracle(case, obs):
         if py['out'][:2] != f['out'][:2]:
             bad('solve|empty-span|mismatch', 'solve() of a model without periods (SolutionError from both since fix e0867c1): Python engine %s, Fortran engine %s' % (py['out'], f['out']))
         return fails
+    if case['entry'] == 'solve':
+        # "same return values": the labels returned by solve() are the span's labels at the returned positions, in both engines
+        for side, o_ in (('Python', py), ('Fortran', f)):
+            if o_['out'][0] == 'ret' and not o_['out'][4]:
+                bad('solve|labels|mismatch', '%s engine: solve() returned labels %s for positions %s' % (side, o_['out'][3], o_['out'][1]))
+        if py['out'][0] == 'ret' and f['out'][0] == 'ret' and py['out'][1] == f['out'][1] and py['out'][3] != f['out'][3]:
+            bad('solve|labels|mismatch', 'solve() labels differ: Python engine %s, Fortran engine %s' % (py['out'][3], f['out'][3]))
     ps = positions_of(case, obs)
     if any(not (0 <= p < n) for p in ps) or (case['entry'] != 'solve' and not (-n <= case['t'] < n)):
         return fails                                       # t outside the span
@@ -1620,7 +1813,9 @@ def oracle(case, obs):
         return fails
     known_value_classes = [c for c in ('integer-division', 'real4-literal', 'real4-arithmetic') if c in cls]
     exact = not known_value_classes and 'powi' not in cls
-    zero_ties = has_node(prog['eqs'], lambda nd: nd[0] == 'm')
+    # zeros compared without their sign where the sign is unspecified (MAX / MIN of zeros of opposite sign) or where the languages
+    # cannot agree on it: an INTEGER literal 0 has no negative, so `-0 * X` is (+0)*X in Python and -(0*X) in Fortran
+    zero_ties = has_node(prog['eqs'], lambda nd: nd[0] == 'm' or (nd[0] == 'i' and nd[1] == 0))
 
     def canon(h):
         return '0x0.0p+0' if (zero_ties and h == '-0x0.0p+0') else h
